@@ -329,6 +329,21 @@ v("break-c13-depth-twice", "break", "C13", "REC-ONCE", [
     (E, "\tfn, found := validators[e.Op]\n", "\tif nesting(e) > 100000 {\n\t\treturn fmt.Errorf(\"nested too deeply\")\n\t}\n\tfn, found := validators[e.Op]\n"),
 ], "a depth guard visits every child twice through a second function: exponential")
 
+v("break-c06-regexp-class-depth", "break", "C06", "REGEXP-LOOP", [
+    (L, "\topen := l.next()\n\n\tfor {\n\t\tswitch r := l.next(); {\n\t\tcase isAlphaNumeric(r) || isWildcard(r):\n\t\t\t// do nothing\n\t\tcase isEscape(r):\n\t\t\tl.next() // just ignore the next character",
+        "\topen := l.next()\n\tdepth := 0\n\n\tfor {\n\t\tswitch r := l.next(); {\n\t\tcase r == '[':\n\t\t\tdepth++\n\t\tcase r == ']' && depth > 0:\n\t\t\tdepth--\n\t\tcase isAlphaNumeric(r) || isWildcard(r):\n\t\t\t// do nothing\n\t\tcase isEscape(r):\n\t\t\tl.next() // just ignore the next character"),
+    (L, "\t\tcase r == open:\n\t\t\treturn l.emit(TRegexp)", "\t\tcase r == open && depth == 0:\n\t\t\treturn l.emit(TRegexp)"),
+], "a delimiter inside [ ] does not end the regexp, counted with a depth: [[] never closes")
+v("break-c08-word-state-error", "break", "C08", "LEX-ERR-SITES", [
+    (L, "func lexWord(l *Lexer) tokenStateFn {\nloop:\n", "func lexWord(l *Lexer) tokenStateFn {\n\tif strings.HasPrefix(l.input[l.start:], \"\\\\\\\\\") {\n\t\treturn l.errorf(\"a word cannot start with an escaped backslash\")\n\t}\nloop:\n"),
+], "the word state refuses some words")
+v("break-c11-option-skips-names", "break", "C11", "DF-IDENT", [
+    (P, "\treturn func(p *parser) {\n\t\tp.defaultField = field", "\treturn func(p *parser) {\n\t\tif field == \"_all\" {\n\t\t\treturn\n\t\t}\n\t\tp.defaultField = field"),
+], "the option does not store some field names")
+v("break-c08-keyword-values", "break", "C08", "LIT-TYPE", [
+    (P, "\t// if it contains unescaped wildcards then it is a wildcard string", "\tif token.Val == \"null\" {\n\t\treturn expr.Lit(\"\"), nil\n\t}\n\n\t// if it contains unescaped wildcards then it is a wildcard string"),
+], "the word null becomes the empty string")
+
 def main():
     os.makedirs(OUT, exist_ok=True)
     for f in os.listdir(OUT):
